@@ -479,7 +479,16 @@ func searchSig(fs []sFilter, attrs []string, what string) string {
 	for _, f := range fs {
 		ops += fmt.Sprintf("%v,", f.op)
 	}
-	return fmt.Sprintf("%s [primary=%s ops=%s attrs=%d]", what, primaryKind(fs), ops, len(attrs))
+	b58 := 0
+	for _, f := range fs {
+		switch f.key {
+		case object.FilterOwnerID, object.FilterParentID, object.FilterFirstSplitObject, object.AttributeAssociatedObject:
+			if f.op == object.MatchCommonPrefix {
+				b58 = 1
+			}
+		}
+	}
+	return fmt.Sprintf("%s [primary=%s ops=%s attrs=%d b58prefix=%d]", what, primaryKind(fs), ops, len(attrs), b58)
 }
 
 func primaryKind(fs []sFilter) string {
